@@ -4,6 +4,7 @@ import (
 	"bytes"
 	"fmt"
 	"io"
+	"regexp"
 	"strings"
 	"testing/iotest"
 
@@ -174,6 +175,22 @@ func c09Exec(cs fw.Case) *fw.Fail {
 		if f := try("data with EOF", iotest.DataErrReader(bytes.NewReader(dump))); f != nil {
 			return f
 		}
+		// the dump is a part of a larger stream and the reader stands at its first byte: behind a header, behind another
+		// stored dump (seekable readers: a loader has no business moving them anywhere else)
+		{
+			r := bytes.NewReader(append([]byte("HEADER\x00\x01"), dump...))
+			r.Seek(8, io.SeekStart)
+			if f := try("bytes.Reader positioned behind an 8-byte header", r); f != nil {
+				return f
+			}
+			if other, ok := dumpOf("print \"another stored program\""); ok {
+				r := bytes.NewReader(append(append([]byte{}, other...), dump...))
+				r.Seek(int64(len(other)), io.SeekStart)
+				if f := try("bytes.Reader positioned behind another stored dump", r); f != nil {
+					return f
+				}
+			}
+		}
 		if f := try("half reads", iotest.HalfReader(bytes.NewReader(dump))); f != nil {
 			return f
 		}
@@ -224,6 +241,8 @@ func c09Exec(cs fw.Case) *fw.Fail {
 			if uerr != nil {
 				return fw.Failf("the filler program parses", "%v", uerr)
 			}
+			// the Prog has also RUN before (whatever a run leaves behind in the Prog must not reach the loaded program)
+			bcl.Execute(used)
 			for round := 1; round <= 2; round++ {
 				loads++
 				if lerr := used.Load(bytes.NewReader(dump)); lerr != nil {
@@ -245,6 +264,37 @@ func c09Exec(cs fw.Case) *fw.Fail {
 				}
 			}
 		}
+		// ... and into a Prog that held (and ran) a SHADOW of this very program: the same source with every name and
+		// string spelled differently, so that every constant index, slot and code offset of the old program coincides
+		// with one of the new program while the texts differ — anything the Prog remembers by index is stale now
+		if len(c.Src) <= 20000 {
+			shadowSrc := c09Rename.ReplaceAllStringFunc(c.Src, func(w string) string {
+				if c09Keep[w] {
+					return w
+				}
+				return w + "Q"
+			})
+			var sout, slog bytes.Buffer
+			if shadow, serr := bcl.Parse([]byte(shadowSrc), "shadow", bcl.OptOutput(&sout), bcl.OptLogger(&slog)); serr == nil {
+				bcl.Execute(shadow)
+				loads++
+				if lerr := shadow.Load(bytes.NewReader(dump)); lerr != nil {
+					return fw.Failf("Load into a Prog that held a renamed twin of the program succeeds", "error: %v", lerr)
+				}
+				sout.Reset()
+				slog.Reset()
+				bl, bi, xerr := bcl.Execute(shadow)
+				got := impl.Ran{Blocks: bl, Binding: bi, Err: xerr, Out: sout.String(), Log: slog.String()}.Summary()
+				if got != orig {
+					return fw.Failf("same execution after Load into a Prog that held and ran a renamed twin of the program: "+fw.Trunc(orig, 300), "%s", fw.Trunc(got, 300))
+				}
+				var d2 bytes.Buffer
+				if derr := shadow.Dump(&d2); derr != nil || !bytes.Equal(d2.Bytes(), dump) {
+					return fw.Failf("re-dump byte-identical after Load into a Prog that held a renamed twin", "differs: %d vs %d bytes (%v)", d2.Len(), len(dump), derr)
+				}
+				fw.Tally("shadow_loads", 1)
+			}
+		}
 		fw.Tally("loads", int64(loads))
 		fw.Tally("partitions", int64(loads))
 		fw.TallyOutcome("roundtrip-ok")
@@ -253,8 +303,12 @@ func c09Exec(cs fw.Case) *fw.Fail {
 	})
 }
 
+var c09Rename = regexp.MustCompile(`\b[A-Za-z_][A-Za-z0-9_]*\b`)
+var c09Keep = map[string]bool{"var": true, "def": true, "eval": true, "print": true, "bind": true, "true": true, "false": true, "nil": true, "not": true, "and": true, "or": true,
+	"first": true, "last": true, "all": true, "struct": true, "slice": true, "TYPE": true, "NAME": true}
+
 // c09UsedSrc: what a Prog holds before a dump is loaded into it (more lines, constants and code than most dumps)
-var c09UsedSrc = strings.Repeat("\n# filler\n", 30) + "var u1 = \"old string constant\"\nvar u2 = 123456\nprint u1 + u2\ndef old_block \"old name\" { old_field = 2.5 }\nbind old_block -> struct\n\n\n"
+var c09UsedSrc = strings.Repeat("\n# filler\n", 30) + "var u1 = \"old string constant\"\nvar u2 = 123456\nprint u1 + u2\ndef old_block \"old name\" { old_field = 2.5; def kid \"k\" { v = 1 }; def kid { v = 2 }; def other { def kid \"k\" { } } }\nbind old_block -> struct\nbind old_block -> slice\n\n\n"
 
 func trimInts(x []int) string {
 	s := fmt.Sprint(x)
@@ -399,6 +453,13 @@ func init() {
 					cuts = 1
 				}
 				c.Do(subC09, &c09Case{Name: "S:" + s.Name, Src: s.Src, PName: "input", Cuts: cuts})
+				if c.Expired() {
+					return
+				}
+			}
+			// the sizes in between the boundaries: every length / count up to a bound
+			for _, s := range gen.DenseFamilies(c.Thorough()) {
+				c.Do(subC09, &c09Case{Name: "D:" + s.Name, Src: s.Src, PName: "input", Cuts: 0})
 				if c.Expired() {
 					return
 				}
